@@ -45,8 +45,9 @@ def run(ctx: Ctx):
     # ---------------- S1 tables -----------------------------------------------------------
     written = None
     for n in own_nodes(hist.node):
-        if isinstance(n, ast.Assign) and _str_list(n.value) and len(_str_list(n.value)) >= 4:
-            written = _str_list(n.value)
+        # the literal column names, alone (`names = [...]`, extended below) or as the head of `[...] + list(user entries)`
+        if isinstance(n, (ast.List, ast.Tuple)) and _str_list(n) and len(_str_list(n)) >= 4:
+            written = _str_list(n)
     if written is None:
         raise AnalysisError("C15: column list of save_info_to_hist not found")
     cols = set(written)
@@ -153,8 +154,18 @@ def run(ctx: Ctx):
     col.ob("G13", "S1", f"{W('update_cache')}::user-entries-restored-per-row", urest == [True],
            "user-defined entries are not restored, for every history row, as type(row[name]) under their own name",
            rel, rl.lineno, sample=urest)
-    wr_user = any(isinstance(n, ast.AugAssign) and "user_entry_types" in u(n.value) for n in own_nodes(hist.node)) or any(
-        isinstance(c.func, ast.Attribute) and c.func.attr == "extend" and "user_entry_types" in u(c) for c in own_calls(hist.node))
+    # every row handed to the csv writer (header and values) derives from the user entry table as well as the literal columns
+    rd_hist = ReachingDefs(hist.node)
+    wsites = [c for c in own_calls(hist.node) if isinstance(c.func, ast.Attribute) and c.func.attr == "writerow" and c.args]
+    ext_calls = [c for c in own_calls(hist.node) if isinstance(c.func, ast.Attribute) and c.func.attr in ("extend", "append")
+                 and "user_entry_types" in u(c)]
+
+    def _from_user(arg):
+        der = rd_hist.derives(arg)
+        names_ = {x.id for e_ in der.exprs for x in ast.walk(e_) if isinstance(x, ast.Name)} | {x.id for x in ast.walk(arg) if isinstance(x, ast.Name)}
+        return any("user_entry_types" in u(e_) for e_ in der.exprs) or "user_entry_types" in u(arg) or any(
+            isinstance(c.func.value, ast.Name) and c.func.value.id in names_ for c in ext_calls)
+    wr_user = bool(wsites) and all(_from_user(c.args[0]) for c in wsites)
     col.ob("G13", "S1", f"{W('save_info_to_hist')}::user-entries-written", wr_user,
            "user-defined entries are not appended to the written column list", rel, hist.line)
     col.ob("G13", "S1", f"{W('update_cache')}::epoch0-row-keys", set(seed_keys) == cols,
@@ -275,53 +286,77 @@ def run(ctx: Ctx):
                f"(parsed cache) diverge", rel, computed[0].lineno if computed else upd.line,
                sample=dict(column=k, fmt=fmt_kind(k), computed=[u(c) for c in computed]))
 
-    # ---------------- S3/S4 reference epochs and sibling symmetry --------------------
+    # ---------------- S3/S4/S5 the per-epoch transition, its predicates and reference epochs ---------------
+    from .c15_machine import Machine, Und, transition_table, continue_table, predicate_tables
     pm = parent_map(upd.node)
-    sib = {}
-    for P, L in PAIRS:
-        sib[P] = _control_block(upd, rd, pm, P, L, rowvar)
-        b = sib[P]
-        where = W("update_for_epoch")
-        n_ = Normalizer()
-        want = ast.parse(f"epoch - self.params.{L}_patience + {rowvar}['{P}_patience_cd'] - 1", mode="eval").body
-        okref = b["ref_expr"] is not None and not padd(n_.poly(b["ref_expr"]), n_.poly(want), -1)
-        col.ob("G12", "S4", f"{where}::{P}-reference-epoch", okref,
-               f"the {L} reference epoch is `{u(b['ref_expr']) if b['ref_expr'] is not None else None}`, expected "
-               f"epoch - patience + countdown - 1", rel, b["line"], sample=u(b["ref_expr"]) if b["ref_expr"] is not None else None)
-        # S3: the countdown read there is the previous row's (no store to it reaches the use)
-        stale = False
-        if b["ref_expr"] is not None:
-            for nm in ast.walk(b["ref_expr"]):
-                if isinstance(nm, ast.Name) and nm.id == rowvar:
-                    for d in rd.defs_of(nm):
-                        t = getattr(d, "target", None)
-                        if d.kind == "item" and isinstance(t, ast.Subscript) and isinstance(t.slice, ast.Constant) \
-                                and t.slice.value in (f"{P}_patience_cd", f"{P}_resume_cd"):
-                            stale = True
-        col.ob("G16", "S3", f"{where}::{P}-reference-reads-previous-countdown", not stale,
-               f"the {L} reference epoch is computed after this epoch's countdown update (it must use the previous "
-               f"row's countdown)", rel, b["line"])
-        col.ob("G12", "S4", f"{where}::{P}-predicate", b["pred"] == f"max(REF['val_met'] - val_met, 0) < self.params.{L}_threshold",
-               f"the {L} no-improvement predicate is `{b['pred']}`", rel, b["line"], sample=b["pred"])
-        col.ob("G12", "S4", f"{where}::{P}-chain", b["chain"] == ["resume-truthy", "resume-=1", "pred", "patience-=1", "else-reset-patience"],
-               f"the {L} countdown chain is {b['chain']} (expected resume countdown, else predicate -> patience "
-               f"countdown, else reset to patience)", rel, b["line"], sample=b["chain"])
-    col.ob("G12", "S4", f"{W('update_for_epoch')}::es-rlr-alpha-equivalent",
-           sib["es"]["shape"] == sib["rlr"]["shape"],
-           f"the early-stopping and reduce-lr control blocks are not alpha-equivalent: {sib['es']['shape']} vs "
-           f"{sib['rlr']['shape']}", rel, upd.line, sample=sib["es"]["shape"])
-
-    # ---------------- S5 stop rule agreement -------------------------------------------
-    ru = _stop_rules(upd, pm)
-    rc = _stop_rules(cont, parent_map(cont.node))
-    col.ob("G13", "S5", f"{rel}::{CLS}::stop-rule(update_for_epoch==continue_training)", ru == rc and len(ru) >= 3,
-           f"update_for_epoch decides to continue by {sorted(ru)} but continue_training by {sorted(rc)}: a "
-           f"restarted run would stop at a different epoch", rel, cont.line, sample=sorted(ru))
-    want_rules = {("True", "self.params.num_epochs", False),
-                  ("epoch < self.params.num_epochs", "self.params.num_epochs", True),
-                  ("False", "self.params.early_stopping_threshold and (not ROW['es_patience_cd'])", True)}
-    col.ob("G13", "S5", f"{W('update_for_epoch')}::stop-rule", ru == want_rules,
-           f"stop rule is {sorted(ru)}", rel, upd.line, sample=sorted(ru))
+    where = W("update_for_epoch")
+    m = Machine(upd.node, rd, rowvar)
+    try:
+        npts, bad = transition_table(m)
+        col.ob("G12", "S4", f"{where}::countdown-transition-table", bad is None and npts > 0,
+               f"one epoch's update of the countdowns / learning rate / continue flag is not the documented transition (resume "
+               f"countdown first, else no-improvement -> patience countdown, else reset; stop on num_epochs or an exhausted "
+               f"early-stopping patience): {bad}", rel, upd.line, sample=dict(points=npts, statements=len(m.relevant)))
+        kinds = {k for k in m.pred_nodes.values()}
+        col.ob("G12", "S4", f"{where}::both-no-improvement-predicates-found", kinds == {"es", "rlr"},
+               f"the transition consults predicates for {sorted(kinds)} (expected one for early stopping, one for reduce-lr)",
+               rel, upd.line, sample=sorted(kinds))
+        ptab = predicate_tables(m)
+        for P, L in PAIRS:
+            if P not in ptab:
+                continue
+            n_, badp, node = ptab[P]
+            col.ob("G12", "S4", f"{where}::{P}-predicate", badp is None,
+                   f"the {L} no-improvement predicate `{u(node)}` is not max(reference - new, 0) < threshold: {badp}", rel,
+                   node.lineno, sample=dict(points=n_, predicate=m.inl.text(node)))
+            # the reference row: the get_info argument behind the reference metric read by the predicate
+            ref_expr = None
+            x = m.inl.expand(node)
+            for sub in ast.walk(x):
+                if isinstance(sub, ast.Subscript) and isinstance(sub.slice, ast.Constant) and sub.slice.value == "val_met":
+                    v = sub.value
+                    cands = [v] if isinstance(v, ast.Call) else [d.value for d in rd.defs_of(v)] if isinstance(v, ast.Name) else []
+                    for c in cands:
+                        if isinstance(c, ast.Call) and isinstance(c.func, ast.Attribute) and c.func.attr == "get_info" and c.args:
+                            ref_expr = m.inl.expand(c.args[0])
+            nz = Normalizer()
+            want = ast.parse(f"epoch - self.params.{L}_patience + {rowvar}['{P}_patience_cd'] - 1", mode="eval").body
+            okref = ref_expr is not None and not padd(nz.poly(ref_expr), nz.poly(want), -1)
+            col.ob("G12", "S4", f"{where}::{P}-reference-epoch", okref,
+                   f"the {L} reference epoch is `{u(ref_expr) if ref_expr is not None else None}`, expected "
+                   f"epoch - patience + countdown - 1", rel, node.lineno, sample=u(ref_expr) if ref_expr is not None else None)
+            stale = False
+            if ref_expr is not None:
+                for nm in ast.walk(ref_expr):
+                    if isinstance(nm, ast.Name) and nm.id == rowvar:
+                        for d in rd.defs_of(nm):
+                            t = getattr(d, "target", None)
+                            if d.kind == "item" and isinstance(t, ast.Subscript) and isinstance(t.slice, ast.Constant) \
+                                    and t.slice.value in (f"{P}_patience_cd", f"{P}_resume_cd"):
+                                stale = True
+            col.ob("G16", "S3", f"{where}::{P}-reference-reads-previous-countdown", not stale,
+                   f"the {L} reference epoch is computed after this epoch's countdown update (it must use the previous "
+                   f"row's countdown)", rel, node.lineno)
+    except Und as e_:
+        col.undecided(f"{where}: the per-epoch update is outside the interpreted fragment ({e_})")
+    # S5: continue_training applies the same stop rule to a stored row
+    crow = None
+    for n in own_nodes(cont.node):
+        if isinstance(n, ast.Assign) and len(n.targets) == 1 and isinstance(n.targets[0], ast.Name) and any(
+                isinstance(c, ast.Call) and isinstance(c.func, ast.Attribute) and c.func.attr == "get_info" for c in ast.walk(n.value)):
+            crow = n.targets[0].id
+    if crow is None:
+        col.undecided(f"{W('continue_training')}: the row read by continue_training was not found")
+    else:
+        try:
+            mc = Machine(cont.node, ReachingDefs(cont.node), crow)
+            npts, bad = continue_table(mc)
+            col.ob("G13", "S5", f"{rel}::{CLS}::stop-rule(update_for_epoch==continue_training)", bad is None and npts > 0,
+                   f"continue_training does not apply the stop rule of update_for_epoch to the stored row (continue iff the epoch "
+                   f"budget is not used up and early stopping is off or its patience is not exhausted): {bad}: a restarted run would "
+                   f"stop at a different epoch", rel, cont.line, sample=dict(points=npts))
+        except Und as e_:
+            col.undecided(f"{W('continue_training')}: outside the interpreted fragment ({e_})")
 
     # ---------------- S6 lr write-through ----------------------------------------------
     _s6(ctx, upd, rd, pm, rowvar, rel, W("update_for_epoch"))
@@ -356,89 +391,6 @@ def _prev_row_var(upd, rd) -> str:
                     if isinstance(n.value, ast.Call) and call_name(n.value) == "dict":
                         return n.targets[0].id
     raise AnalysisError("C15: the copy of the previous epoch's row (dict(self.get_info(epoch - 1))) not found")
-
-
-def _control_block(upd, rd, pm, P, L, rowvar):
-    """Extract the reference-epoch expression, predicate and chain shape of one control block."""
-    out = dict(ref_expr=None, pred=None, chain=[], shape=None, line=upd.line)
-    # locate the block through its resume countdown: `if ROW['<P>_resume_cd']: ... elif <predicate>:`
-    pred_node = None
-    for n in own_nodes(upd.node):
-        if isinstance(n, ast.If) and u(n.test) == f"{rowvar}['{P}_resume_cd']" and len(n.orelse) == 1 \
-                and isinstance(n.orelse[0], ast.If):
-            pred_node = n.orelse[0].test
-    if pred_node is None or not isinstance(pred_node, ast.Compare):
-        raise AnalysisError(f"C15: the {L} control block (if row['{P}_resume_cd'] ... elif predicate) was not found")
-    out["line"] = pred_node.lineno
-    refvar = None
-    for x in ast.walk(pred_node):
-        if isinstance(x, ast.Subscript) and u(x.slice) == "'val_met'" and isinstance(x.value, ast.Name):
-            refvar = x.value
-    if refvar is None:
-        out["pred"] = u(pred_node)
-        out["shape"] = (None, out["pred"], ())
-        return out
-    from sa.inline import Inliner
-    inl = Inliner(upd.node, rd, keep={refvar.id, rowvar})  # temporaries such as `patience = self.params.x_patience` are looked through
-    out["pred"] = inl.text(pred_node).replace(refvar.id + "[", "REF[")
-    for d in rd.defs_of(refvar):
-        v = d.value
-        if isinstance(v, ast.Call) and isinstance(v.func, ast.Attribute) and v.func.attr == "get_info" and v.args:
-            out["ref_expr"] = inl.expand(v.args[0])
-    # the chain: the If statement whose elif test is the predicate
-    st = pm.get(pred_node)
-    while st is not None and not isinstance(st, ast.If):
-        st = pm.get(st)
-    top = pm.get(st)
-    chain = []
-    if isinstance(top, ast.If) and st in top.orelse:
-        rk, pk = f"{rowvar}['{P}_resume_cd']", f"{rowvar}['{P}_patience_cd']"
-        if u(top.test) == rk:
-            chain.append("resume-truthy")
-        if any(isinstance(s, ast.AugAssign) and u(s.target) == rk and isinstance(s.op, ast.Sub) and u(s.value) == "1"
-               for s in top.body) and len(top.body) == 1:
-            chain.append("resume-=1")
-        chain.append("pred")
-        if st.body and isinstance(st.body[0], ast.AugAssign) and u(st.body[0].target) == pk \
-                and isinstance(st.body[0].op, ast.Sub) and u(st.body[0].value) == "1":
-            chain.append("patience-=1")
-        if len(st.orelse) == 1 and isinstance(st.orelse[0], ast.Assign) and u(st.orelse[0].targets[0]) == pk \
-                and inl.text(st.orelse[0].value) == f"self.params.{L}_patience":
-            chain.append("else-reset-patience")
-    out["chain"] = chain
-    ren = lambda s: s.replace(P + "_", "X_").replace(L + "_", "XX_").replace(rowvar, "ROW")
-    out["shape"] = (ren(pstr(Normalizer().poly(out["ref_expr"]))) if out["ref_expr"] is not None else None,
-                    ren(out["pred"] or ""), tuple(chain))
-    return out
-
-
-def _stop_rules(f, pm) -> Set[Tuple[str, str, bool]]:
-    """(assigned value, innermost guard) pairs for the returned continue-flag."""
-    rets = [n for n in own_nodes(f.node) if isinstance(n, ast.Return) and isinstance(n.value, ast.Name)]
-    if not rets:
-        raise AnalysisError(f"C15: {f.qualname} does not return a flag variable")
-    flag = rets[-1].value.id
-    rowvars = set()
-    for n in own_nodes(f.node):
-        if isinstance(n, ast.Assign) and len(n.targets) == 1 and isinstance(n.targets[0], ast.Name):
-            if any(isinstance(c, ast.Call) and isinstance(c.func, ast.Attribute) and c.func.attr == "get_info"
-                   for c in ast.walk(n.value)):
-                rowvars.add(n.targets[0].id)
-    out = set()
-    for n in own_nodes(f.node):
-        if isinstance(n, ast.Assign) and len(n.targets) == 1 and isinstance(n.targets[0], ast.Name) \
-                and n.targets[0].id == flag:
-            gs = guards_of(pm, n)
-            g, pol = "True", True
-            if gs:
-                t, pol = gs[-1]
-                while isinstance(t, ast.UnaryOp) and isinstance(t.op, ast.Not):
-                    t, pol = t.operand, not pol
-                g = u(t)
-            for rv in rowvars:
-                g = g.replace(rv + "[", "ROW[")
-            out.add((u(n.value), g, pol))
-    return out
 
 
 def _s6(ctx, upd, rd, pm, rowvar, rel, where):
@@ -509,6 +461,7 @@ MANIFEST = dict(
 )
 
 
+
 def _mutants():
     from selftest.mutate import Mutant as M
     T = "training.py"
@@ -536,7 +489,7 @@ def _mutants():
         M("es-pred-sign", T, "max(es_info['val_met'] - val_met, 0) < self.params.early_stopping_threshold",
           "max(val_met - es_info['val_met'], 0) < self.params.early_stopping_threshold", "es-predicate"),
         M("es-reset-wrong", T, "info['es_patience_cd'] = self.params.early_stopping_patience\nif self.params",
-          "info['es_patience_cd'] = self.params.early_stopping_burnin\nif self.params", "es-chain"),
+          "info['es_patience_cd'] = self.params.early_stopping_burnin\nif self.params", "countdown-transition-table"),
         M("continue-training-differs", T, "if self.params.early_stopping_threshold and (not info['es_patience_cd']):\n    cont = False\nreturn cont",
           "if self.params.early_stopping_threshold and (not info['es_resume_cd']):\n    cont = False\nreturn cont", "stop-rule"),
         M("lr-not-written-to-optimizer", T, "for param_group in optimizer.param_groups:\n    param_group['lr'] = new_lr", "pass",
